@@ -1359,6 +1359,9 @@ func (v *Verifier) rangeInit(st *State, x *ssa.Range) {
 		it.mapT = mt
 		ks := v.sortOf(mt.Key())
 		it.visited = mk("(Array "+ks+" Bool)", "((as const (Array "+ks+" Bool)) false)")
+		it.count = intLit(0)
+		dom0, _ := v.mapHeaps(st, mt)
+		it.dom0 = dom0.read(a)
 	} else {
 		it.isStr = true
 		it.str = a
@@ -1422,6 +1425,14 @@ func (v *Verifier) rangeNext(st *State, x *ssa.Next) {
 		// that speak about the visited set as a whole
 		v.usesSetTheory()
 		st.assume(tImp(tAnd(tNot(ok), tNot(tEq(it.m, tNilP))), tSubset(domA, it.visited)))
+	}
+	if it.count != nil {
+		// a range over a map that is not written meanwhile produces every key exactly once: when it ends, the number of
+		// keys produced is len(m) (only stated while the key set is syntactically the one the loop started with)
+		if it.dom0 != nil && termEq(it.dom0, domA) {
+			st.assume(tImp(tNot(ok), tEq(it.count, v.mapLen(st, it.m, mt))))
+		}
+		it.count = tIte(ok, tAdd(it.count, intLit(1)), it.count)
 	}
 	it.visited = mk(it.visited.Sort, "store", it.visited, k, tTrue)
 	v.addTypeFacts(st, val, mt.Elem())
